@@ -95,7 +95,9 @@ def rule_coords(ctx: Ctx) -> RuleResult:
             rr.add(finding("PAIR", fi, c, f"`{norm(c, 60)}`: children of {fi.name} are placed along one axis only; expected ({'0, <row>' if axis else '<col>, 0'})", construct=f"{fi.name}: coords shift ({', '.join(args)})"))
             continue
         # the same offset is recorded for the child
-        ch = [x for x in fi.own_nodes() if isinstance(x, ast.Call) and isinstance(x.func, ast.Attribute) and x.func.attr == "append" and ast.unparse(x.func.value) == "children" and x.args and isinstance(x.args[0], ast.Tuple)]
+        # the children list, by role: the local that ends up in `<result>.children = <name>`
+        chnames = {n_.value.id for n_ in fi.own_nodes() if isinstance(n_, ast.Assign) and isinstance(n_.value, ast.Name) and any(isinstance(t_, ast.Attribute) and t_.attr == "children" for t_ in n_.targets)}
+        ch = [x for x in fi.own_nodes() if isinstance(x, ast.Call) and isinstance(x.func, ast.Attribute) and x.func.attr == "append" and isinstance(x.func.value, ast.Name) and x.func.value.id in chnames and x.args and isinstance(x.args[0], ast.Tuple)]
         if len(ch) != 1:
             raise AnalysisError(f"{fi.name}: children.append((x, y, canvas, pos)) not found")
         t = ch[0].args[0]
